@@ -46,9 +46,9 @@ def one_case(rng, tier):
     kind = rng.choice(['timed_window', 'timed_window_unique', 'partition', 'partition'])
     T = rng.choice([0.5, 1.0, 2.0])
     if kind == 'timed_window':
-        nodes.append({'id': 'tw', 'op': 'timed_window', 'ups': [last], 'interval': T})
+        nodes.append({'id': 'tw', 'op': 'timed_window', 'ups': [last], 'interval': T, 'ival_str': rng.random() < 0.25})
     elif kind == 'timed_window_unique':
-        nodes.append({'id': 'tw', 'op': 'timed_window_unique', 'ups': [last], 'interval': T,
+        nodes.append({'id': 'tw', 'op': 'timed_window_unique', 'ups': [last], 'interval': T, 'ival_str': rng.random() < 0.25,
                       'key': rng.choice(['ident', 'mod2', 'mod3']), 'keep': rng.choice(['first', 'last'])})
     else:
         if rng.random() < 0.12:
